@@ -27,7 +27,18 @@ REFINED = ["quote_bytes / from_le_bytes (heap path)", "le_bytes_to_u{16,32,64}_a
            "REGENERATED from macros/src/parse/*.rs (Gen/MacroGen.lean, Tie A) and called by / proved equal to the model (Props/C20Gen)",
            "the token loops `for token in input { match token {..} }` of parse_integer_with_error and parse_ratio_with_error REGENERATED as "
            "state machines over the code's `let mut` variables; the hand model (intStepNew / ratStepNew, about which the grammar theorems "
-           "are proved) simulates them step by step for every state and token (Props/C20GenLoop)"]
+           "are proved) simulates them step by step for every state and token (Props/C20GenLoop)",
+           "round 6: the statements of parse_binary_float in front of the parser call (strip_prefix of `-` / `+` / `_`, second-sign refusal, "
+           "which parser and base, assert!(signif.is_positive())) and of parse_decimal_float (text unchanged to DBig::from_str) REGENERATED "
+           "(fbig_prelude / dbig_prelude in Gen/MacroGen.lean); fbigNew / dbigAsIs proved equal to prelude + parser + assert for every token "
+           "list (Props/C20Gen fbig_prelude_regenerated, dbig_prelude_regenerated)",
+           "round 6: the code of parse_integer_with_error and parse_ratio_with_error BEHIND the token loop (val.unwrap / ok_or, `/` without "
+           "denominator, which parser gets which text with which radix, `base` without radix, inconsistent radix, Sign::from(neg), "
+           "RBig / Relaxed::from_parts_signed by `relaxed`) REGENERATED as int_finish / ratio_finish with the parsers as parameters; the hand "
+           "model's intFinishNew / ratFinishNew proved equal for every state, hence intNew / ratNew = regenerated loop ; regenerated finish "
+           "for every token list (Props/C20GenLoop int_parse_regenerated, ratio_parse_regenerated)",
+           "round 6: quote_sign's four arms REGENERATED (which path each (embedded, sign) arm emits); each arm writes the sign it was given in "
+           "the namespace of its flag (Props/C20Gen quote_sign_regenerated)"]
 FRONTIER = ["rustc tokenisation of the literal (generator-side lexer, validated by compiling the sample crate): kept — rustc's lexer is not "
             "part of /repo and has no executable model here; level (ii) compiles the sampled invocations with the real compiler",
             "the expansion is read by an interpreter in the harness (constructor paths + data); validated by level (ii): the real proc-macros "
@@ -45,7 +56,7 @@ RULE = ("source texts of macro arguments built from the grammar (sign x radix pr
         "2^32±k, 2^63±k, 2^64-k), every alphanumeric character in first / middle / last position of a value token with the radix "
         "just below / above its digit value, every punctuation token in every position of a valid literal of every macro, doubled / "
         "dropped / swapped tokens, the `_` identifier and foreign literal tokens, and 2^k-1, 2^k, 2^k+1 for EVERY k (integer, binary / "
-        "hexadecimal significand, numerator / denominator), 10^n±1 for every n, r^n±1 around 2^32 / 2^64 / 2^128 for every radix. Level (i): expansion functions called at run time, expansion interpreted with the real "
+        "hexadecimal significand, numerator / denominator), 10^n±1 for every n, r^n±1 around 2^32 / 2^64 / 2^128 for every radix; round 6: float literals whose scale minus fraction digits leaves isize while the normalised exponent (trailing zeros added back) is within isize::MIN..isize::MAX, and one step beyond, every marker, hex forms. Level (i): expansion functions called at run time, expansion interpreted with the real "
         "constructors, compared with the model and the run-time parser. Level (ii): a generated crate of invocations of the real "
         "proc-macros compiled by rustc (values) and a compile_fail crate (must-be-errors). Non-trivial := every case; distinct "
         ":= distinct (macro, mode, token list).")
@@ -66,8 +77,9 @@ LEVEL_TEXT = ("Machine-checked Lean 4 theorems that each of the three code gener
               "streams and interpreting their output with the real constructors, and by compiling a sample crate (plus a "
               "compile_fail set) with the real proc-macros.")
 LEVEL_NOTE = ("Trusted: Lean kernel; axioms propext/Classical.choice/Quot.sound; the harness interpreter of expansions and the "
-              "generators (sampling) for the model<->code tie of the token loops and the float stripping; the regenerating "
-              "translator vlib/extract_macro.py for the generator tables and guards; rustc's lexer as replicated by the generator. "
+              "generators (sampling) for the run-time parsers and constructors the macros call (C07/C08/C19 own their models); the regenerating "
+              "translator vlib/extract_macro.py for the generator tables, guards, token loops, the code behind them and the float sign / `_` stripping; rustc's "
+              "lexer as replicated by the generator. "
               "Float literal parsing is C08's proved model (from_str_native = documented grammar on every byte string).")
 TECHNIQUE = "Lean 4 proofs about byte/word encodings and the token state machines + differential expansion at run time + compiled sample crate"
 
@@ -534,7 +546,7 @@ def gen_extreme(rng, tier):
                     if c:
                         yield c
         for sg in ("", "-", "+"):
-            c = case_of("fbig", rng.choice(["plain", "static"]), "0x1.8%s%s%d" % (rng.choice("pP@"), sg, e))
+            c = case_of("fbig", rng.choice(["plain", "static"]), "_0x1.8%s%s%d" % (rng.choice("pP@"), sg, e))    # (`0x1.8` is no rustc token — round 6: `_0x1` identifier form)
             if c:
                 yield c
             c = case_of("fbig", rng.choice(["plain", "static"]), "-_0x%s%s%s%d" % (rng.choice(["f", "10", "ff00"]), rng.choice("pP"), sg, e))
@@ -553,7 +565,7 @@ def gen_extreme(rng, tier):
                     c = case_of(kind, rng.choice(["plain", "static"]), txt)
                     if c:
                         yield c
-        for hm in ("0x1.80", "0x1.8", "0x10.00", "0x3.000", "-_0xc.40", "0x100"):
+        for hm in ("_0x1.80", "_0x1.8", "+_0x10.00", "_0x3.000", "-_0xc.40", "0x100", "_0xf.0f0"):   # rustc has no `0x1.8` token: `_0x..` identifier form
             for txt in ("%s%s-%d" % (hm, rng.choice("pP"), 2 ** 63 - k), "%s%s%d" % (hm, rng.choice("pP"), 2 ** 63 - 1 - k),
                         "%s%s-%d" % (hm, rng.choice("pP"), 2 ** 63 - 4 - k), "%s%s-%d" % (hm, rng.choice("pP"), 2 ** 63 - 10 - k)):
                 c = case_of("fbig", rng.choice(["plain", "static"]), txt)
